@@ -193,6 +193,16 @@ func (d *Discharger) Discharge(w *World, o *Obligation) {
 	if d.useCache && d.cacheDir != "" {
 		if b, err := os.ReadFile(filepath.Join(d.cacheDir, hs[:2], hs+".json")); err == nil {
 			var r solveResult
+			if json.Unmarshal(b, &r) == nil && r.Status == "unknown" && o.Kind == "vacuity" {
+				// no contradiction was found in the assumptions within the limit last time; same text, same answer
+				o.Status = "unknown"
+				return
+			}
+			if json.Unmarshal(b, &r) == nil && r.Status == "sat" && o.Kind == "vacuity" {
+				// a satisfiable vacuity query (the expected answer) stays satisfiable for the same text
+				o.Status = "failed"
+				return
+			}
 			if json.Unmarshal(b, &r) == nil && r.Status == "unsat" {
 				o.Status, o.Solver, o.Time = "discharged", r.Solver+"(cached)", 0
 				d.mu.Lock()
@@ -295,6 +305,12 @@ func (d *Discharger) Discharge(w *World, o *Obligation) {
 	}
 	if o.Kind == "vacuity" && sat == nil {
 		o.Status = "unknown"
+		if d.cacheDir != "" {
+			dir := filepath.Join(d.cacheDir, hs[:2])
+			os.MkdirAll(dir, 0o755)
+			b, _ := json.Marshal(solveResult{"unknown", "", 0, ""})
+			os.WriteFile(filepath.Join(dir, hs+".json"), b, 0o644)
+		}
 		return
 	}
 	if sat == nil {
@@ -315,6 +331,12 @@ func (d *Discharger) Discharge(w *World, o *Obligation) {
 	}
 	if sat != nil && o.Kind == "vacuity" {
 		o.Status = "failed"
+		if d.cacheDir != "" {
+			dir := filepath.Join(d.cacheDir, hs[:2])
+			os.MkdirAll(dir, 0o755)
+			b, _ := json.Marshal(solveResult{"sat", sat.v.s.name, sat.el, ""})
+			os.WriteFile(filepath.Join(dir, hs+".json"), b, 0o644)
+		}
 		return
 	}
 	if sat != nil {
